@@ -13,6 +13,7 @@ From PowHsm Require Import Proofs.SrcEquivBringupM.
 From PowHsm Require Import Proofs.SrcEquivProtoV1M.
 From PowHsm Require Import Proofs.SrcEquivStateM.
 From PowHsm Require Import Proofs.SrcEquivHeartbeatM.
+From PowHsm Require Import Proofs.SrcEquivParamsProtoM.
 Open Scope N_scope.
 
 (* closed check on the generated except-ladders: every v5 handler maps a link error to (flag set, device error) and a timeout to (flag untouched, device error) *)
@@ -274,5 +275,13 @@ Theorem C11_source_ui_heartbeat_handler_is_model :
          srcm_HSM2ProtocolLedger___ui_heartbeat init self (of_obj req) w =
          mres rtuple_pv (op_ui_heartbeat kind req w).
 Proof. exact (@srcm_ui_heartbeat_handler_ok). Qed.
+
+(* _get_blockchain_parameters as translated = model handler (flag set on a link error) *)
+Theorem C11_source_parameters_handler_is_model :
+  forall (kind : dongle_kind) (init : pm pv) (self request : pv) (req : obj) (w : world),
+         init_ok kind init ->
+         srcm_HSM2ProtocolLedger___get_blockchain_parameters init self request w =
+         mres rtuple_pv (op_parameters kind req w).
+Proof. exact (@srcm_parameters_handler_ok). Qed.
 
 Example C11_nonvacuous : True. Proof. exact I. Qed. (* concrete three-request lifetimes closed by vm_compute in Proofs/C11.v, Module Examples *)
